@@ -263,7 +263,26 @@ def run_sequence(sid, ops, text, other, want=None):
         except Exception:  # noqa: BLE001
             eq1 = eq2 = False
         render_after = _render(chart)
-        recs.append({"id": f"{sid}.{k}", "props": ["C19"], "kind": "op", "op": op, "result": res,
+        # what the chart ANSWERS is an observable datum too: a probe query (rotating through tracks and forms, so that its order
+        # relative to the operations varies) must answer as it does on a chart parsed just now and never queried
+        probe_same = True
+        try:
+            from chartparse.instrument import Difficulty, Instrument
+            probes = [(i, d, a) for (i, d) in (("GUITAR", "EXPERT"), ("BASS", "EASY"), ("GUITAR", "HARD"), ("GUITAR", "EXPERT"))
+                      for a in ((96,), (0,), (), (192, 1500), (timedelta(microseconds=1),), (1000,), (timedelta(0), timedelta(seconds=2)))]
+            for off in (0, 7, 13):
+                i_, d_, a_ = probes[(k + len(ops) * 3 + off + sum(len(str(o)) for o in ops[:k + 1])) % len(probes)]
+
+                def ask(c):
+                    try:
+                        return ("value", c.notes_per_second(Instrument[i_], Difficulty[d_], *a_))
+                    except Exception as e:  # noqa: BLE001
+                        return ("raise", type(e).__name__)
+                if ask(chart) != ask(parse(text, want)):
+                    probe_same = False
+        except Exception:  # noqa: BLE001
+            probe_same = False
+        recs.append({"id": f"{sid}.{k}", "props": ["C19"], "kind": "op", "op": op, "result": res, "probe_same": probe_same,
                      "before": before, "after": after, "twin_before": twin_before, "twin_after": twin_after,
                      "eq_twin": eq1, "twin_eq": eq2, "render_before": render_before, "render_after": render_after})
         before, twin_before, render_before = after, twin_after, render_after
